@@ -881,7 +881,7 @@ def gen_sign_case(rng):
 
 VKINDS = ["genuine", "genuine", "genuine", "case", "secret", "keyname", "owner", "alg", "rdalg", "time+", "time-", "time++", "time--",
           "rmac", "rmac0", "error", "mac-bit", "mac-trunc", "mac-ext", "mac-empty", "wire-bit", "id-bit", "ar0", "short", "start",
-          "fudge", "oid", "timefield", "other", "multi", "chain", "chain-bad"]
+          "fudge", "oid", "timefield", "other", "multi", "chain", "chain-bad", "chain-unimpl"]
 
 
 def gen_validate_case(rng, kind=None):
@@ -896,7 +896,7 @@ def gen_validate_case(rng, kind=None):
     ctx, multi, running = None, 0, None
     if kind in ("multi",):
         multi = 1
-    if kind in ("chain", "chain-bad"):
+    if kind in ("chain", "chain-bad", "chain-unimpl"):
         prior = gen_mac(rng)
         running = u16(len(prior)) + prior + (build_wire(rng) if rng.random() < 0.5 else b"")
         ctx, multi = [k, running], 1
@@ -980,6 +980,12 @@ def gen_validate_case(rng, kind=None):
         other = bytes([rng.randrange(256)])
     elif kind == "chain-bad":
         ctx = [k, running[:-1] + bytes([running[-1] ^ 1])] if rng.random() < 0.5 else None
+    elif kind == "chain-unimpl":
+        # a later envelope whose TSIG (and the bare-secret key built from it) names an algorithm the
+        # library does not implement, MAC genuine under the running context: must be rejected
+        weird = rng.choice([[b"hmac-sha257", b""], [b"hmac-md5", b""], [b"x", b"example", b""]])
+        vk[2] = weird
+        rdalg = list(weird)
     rd = [rdalg, time, fudge, mac, oid, error, other]
     # what the validator must hash according to the RFC, under the validator's key
     ents = []
@@ -1527,6 +1533,8 @@ def oracle(ctx, kind, case, out):
                 want, why = False, "key name"
             elif not name_eq(rd[0], vk[2]):
                 want, why = False, "algorithm"
+            elif rfc_alg(vk[2]) is None:
+                want, why = False, "unsupported algorithm"
             else:
                 msg = rfc_strip(full, tsig_start)
                 if cx is not None and multi:
